@@ -109,6 +109,35 @@ theorem C02_one_frame (p : Packet) (h : p.InDomain) (bs : Bytes) (he : p.encode 
   obtain ⟨sp, _, hl, hu, _, _⟩ := C02_emits_valid p h bs he
   exact ⟨sp.firstByte, sp.body, hu.symm, hl.2⟩
 
+/-- **a whole session**: the bytes any number of in-domain packets put on one stream, written back to
+back, are the concatenation of the frames of as many legal abstract packets, one per packet and in
+the order written, each of the matching type and with the reading of its packet — nothing between
+the frames, nothing after the last. -/
+theorem C02_stream : ∀ (pbs : List (Packet × Bytes)), (∀ x ∈ pbs, x.1.InDomain ∧ x.1.encode = .bytes x.2) →
+    ∃ sps : List SPacket, (∀ sp ∈ sps, sp.Legal) ∧ sps.flatMap (·.unparse) = (pbs.map (·.2)).flatten
+      ∧ sps.map (fun sp => (sp.kind, sp.view)) = pbs.map (fun x => (x.1.kind, x.1.view)) := by
+  intro pbs
+  induction pbs with
+  | nil => intro _; exact ⟨[], by simp, rfl, rfl⟩
+  | cons x pbs ih =>
+    intro hall
+    obtain ⟨sp, _, hl, hu, hk, hv⟩ := C02_emits_valid x.1 (hall x (by simp)).1 x.2 (hall x (by simp)).2
+    obtain ⟨sps, h1, h2, h3⟩ := ih (fun y hy => hall y (by simp [hy]))
+    refine ⟨sp :: sps, ?_, ?_, ?_⟩
+    · intro y hy
+      rcases List.mem_cons.mp hy with rfl | hy
+      · exact hl
+      · exact h1 y hy
+    · simp only [List.flatMap_cons, List.map_cons, List.flatten_cons]; rw [hu, h2]
+    · simp only [List.map_cons]; rw [hk, hv, h3]
+
+/-- non-vacuity of `C02_stream`'s premise: a PINGREQ followed by a PINGRESP -/
+example : ∀ x ∈ [(Packet.pingreq { fixed := 0xc0 }, ([0xc0, 0x00] : Bytes)), (Packet.pingresp { fixed := 0xd0 }, [0xd0, 0x00])],
+    x.1.InDomain ∧ x.1.encode = .bytes x.2 := by
+  intro x h
+  simp only [List.mem_cons, List.not_mem_nil, or_false] at h
+  rcases h with rfl | rfl <;> exact ⟨by simp [Packet.InDomain, Ping.InDomain], by decide⟩
+
 /-- the defect this property was written for cannot recur: an acknowledgement with reason code 0
 and a property is written with its reason code — the abstract packet has form `full` -/
 example :
